@@ -1,4 +1,5 @@
 import PikaVerif.Lemmas.BulkC
+import PikaVerif.Props.C11Proto
 /-!
 # C11 — bulk calls `f` once per index, then completes once: the composition (follow-up C11c)
 
@@ -188,5 +189,57 @@ theorem C11c_plan_from_generated (S : CTy) (w n L : Nat) (v : Int) (hs : Safe S 
     simp only [Bulk.init, word]
     rw [cutsOf_ideal S w n c hsafe k (by omega), cutsOf_ideal S w n c hsafe (k + 1) (by omega),
       C11_queue_ranges S w n c k hsafe hk]
+
+/-- **Refinement (the stack is a theorem, not prose).**  While the workers run, the protocol
+    component `p` of the composed state is a reachable state of the protocol model
+    `PikaVerif.Bulk` started on the cut points of the *generated* queue ranges (which are
+    monotone): every theorem of `Props/C11Proto.lean` applies to it. -/
+theorem C11c_refines_protocol (S : CTy) (w n L : Nat) (v : Int) (s : St)
+    (h : Reachable S w n L v s) (hp : s.ph = 1) :
+    C11Proto.Reachable w L (cutsOf S w n s.c) s.p := by
+  obtain ⟨hs, hL, log, hl⟩ := h
+  obtain ⟨eS, ew, en, _⟩ := params_of_accepted hl
+  have eL := L_of_accepted hl
+  obtain ⟨plog, hpl⟩ := protoReach_of_accepted hl hp
+  rw [eS, ew, en, eL] at hpl
+  refine ⟨hL, ?_, plog, hpl⟩
+  rcases full_of_accepted hs hL hl with ⟨h0, _⟩ | ⟨h2, _⟩ | ⟨_, _, hi⟩
+  · omega
+  · omega
+  · intro k hk
+    have hsafe := hi.safe
+    rw [eS, ew, en] at hsafe
+    rw [cutsOf_ideal S w n s.c hsafe k (by omega), cutsOf_ideal S w n s.c hsafe (k + 1) (by omega)]
+    exact part_mono _ _ k
+
+/-! ## Non-vacuity -/
+
+/-- `bulk<int>(3)` on 2 workers, predecessor on worker 1, value pack 7: chunk size 1, queues
+    `[0,1)` and `[1,3)`; worker 0 runs chunk 0 and steals chunk 2 from the right end of worker
+    1's queue, worker 1 runs chunk 1; value completion after the last decrement. -/
+def exampleLog : List Ev :=
+  [.plan 1, .spawn 0, .task 1, .task 0, .load 0 0 0 1, .cas 0 0 true 1 1, .chunk 0 0, .call 0 0 7,
+   .load 1 1 1 3, .cas 1 1 true 2 3, .ret 0, .chunk 1 1, .call 1 1 7, .ret 1, .load 0 0 1 1,
+   .load 0 1 2 3, .cas 0 1 true 2 2, .chunk 0 2, .call 0 2 7, .ret 0, .load 1 1 2 2, .load 1 0 1 1,
+   .dec 1 false, .load 0 1 2 2, .dec 0 true, .sig false 7]
+
+example : (runLog step (init CTy.i32 2 3 1 7) exampleLog).map (fun s => (s.done, s.calls)) =
+    some ([(false, 7)], [(2, 7), (1, 7), (0, 7)]) := by decide +kernel
+
+/-- the calls with index 0 and 2 throw; the first exception wins the `exchange`, the second
+    participant decrements without storing: one error (the exception of index 0), no value -/
+def exampleThrowLog : List Ev :=
+  [.plan 1, .spawn 0, .task 1, .task 0, .load 0 0 0 1, .cas 0 0 true 1 1, .chunk 0 0, .call 0 0 7,
+   .throw 0, .load 1 1 1 3, .exc 0, .cas 1 1 true 2 3, .dec 0 false, .chunk 1 1, .call 1 1 7, .ret 1,
+   .load 1 1 2 3, .cas 1 1 true 3 3, .chunk 1 2, .call 1 2 7, .throw 1, .dec 1 true, .sig true 0]
+
+example : (runLog step (init CTy.i32 2 3 1 7) exampleThrowLog).map (fun s => (s.done, s.thrown)) =
+    some ([(true, 0)], [2, 0]) := by decide +kernel
+
+/-- a failed compare-exchange (the word changed between load and CAS) retries on the observed word -/
+example : (runLog step (init CTy.i32 2 3 0 7)
+    [.plan 1, .spawn 1, .task 0, .task 1, .load 1 1 1 3, .load 0 0 0 1, .cas 0 0 true 1 1, .chunk 0 0,
+     .call 0 0 7, .ret 0, .load 0 0 1 1, .load 0 1 1 3, .cas 1 1 true 2 3, .cas 0 1 false 2 3,
+     .cas 0 1 true 2 2]).isSome = true := by decide +kernel
 
 end PikaVerif.C11c
